@@ -73,6 +73,9 @@ func c02Opts(g G) GenOpts {
 	if g.Chance(1, 4) {
 		o.TieHeavy = true
 	}
+	if g.Chance(1, 15) { // larger problems (bigger maps, more iteration orders)
+		o.MinAlts, o.MaxAlts, o.MaxCrit = 8, 16, 13
+	}
 	return o
 }
 
